@@ -38,6 +38,8 @@ SPFN(0) SPFN(1) SPFN(2) SPFN(3) SPFN(4) SPFN(5) SPFN(6) SPFN(7) SPFN(8) SPFN(9)
 
 static const int CTX4[4] = { 0, 1, 3, 4 };
 static const int CTX8[8] = { 0, 1, 2, 3, 4, 5, 6, 7 };
+static const int CTX2[2] = { 0, 6 };
+static const short FMT5[5] = { FORMAT_HTML, FORMAT_LATEX, FORMAT_FODT, FORMAT_OPML, FORMAT_EPUB };
 static const unsigned long EXT2[2] = { EXT_DEFAULT, EXT_COMPAT_SET };
 static const unsigned long EXT4[4] = { EXT_DEFAULT, EXT_COMPAT_SET, EXT_DEFAULT | EXT_CRITIC_ACCEPT, EXT_DEFAULT | EXT_RANDOM_FOOT | EXT_RANDOM_LABELS };
 
@@ -59,8 +61,10 @@ static void extsub_init(void) {
 	for (unsigned long m = 0; m <= full; m++) { int pc = __builtin_popcountl(m); if (pc <= 2 || pc >= NBITS - 2) extsub_q[n++] = m; }
 	n_extsub_q = n; n_extsub_t = full + 1;
 }
+static const short FMT7[7] = { FORMAT_HTML, FORMAT_LATEX, FORMAT_FODT, FORMAT_OPML, FORMAT_EPUB, FORMAT_ITMZ, FORMAT_MMD };
 static void extsub_case(uint64_t idx, int quick, int *fmt, unsigned long *ext, int *piv) {
-	*fmt = idx % NFORMATS; idx /= NFORMATS; *piv = idx % 6; idx /= 6; *ext = quick ? extsub_q[idx] : (unsigned long)idx;
+	if (quick) { *fmt = idx % NFORMATS; idx /= NFORMATS; } else { *fmt = FMT7[idx % 7]; idx /= 7; }
+	*piv = idx % 6; idx /= 6; *ext = quick ? extsub_q[idx] : (unsigned long)idx;
 }
 static void run_extq(uint64_t i) { int f, p; unsigned long e; extsub_case(i, 1, &f, &e, &p); convert_case(PIVOTS[p], f, e, 0); }
 static void run_extt(uint64_t i) { int f, p; unsigned long e; extsub_case(i, 0, &f, &e, &p); convert_case(PIVOTS[p], f, e, 0); }
@@ -264,36 +268,36 @@ int main(int argc, char **argv) {
 	SP[1] = (space){ .a = A_lines, .minlen = 1, .maxlen = 2, .fmts = ALL_FORMATS, .nfmt = NFORMATS, .exts = EXT4, .next = 4 };
 	SP[2] = (space){ .a = A_macro, .minlen = 1, .maxlen = 1, .fmts = ALL_FORMATS, .nfmt = NFORMATS, .exts = EXTSETS, .next = 8 };
 	/* thorough */
-	SP[3] = (space){ .a = A_inl, .minlen = 1, .maxlen = 2, .pre = A_pre, .post = A_post, .ctxs = CTX8, .nctx = 8, .fmts = ALL_FORMATS, .nfmt = NFORMATS, .exts = EXTSETS, .next = 8 };
-	SP[4] = (space){ .a = A_core, .minlen = 3, .maxlen = 3, .pre = A_pre, .post = A_post, .ctxs = CTX4, .nctx = 4, .fmts = ALL_FORMATS, .nfmt = NFORMATS, .exts = EXT2, .next = 2 };
-	SP[5] = (space){ .a = A_lines, .minlen = 1, .maxlen = 3, .fmts = ALL_FORMATS, .nfmt = NFORMATS, .exts = EXTSETS, .next = 8 };
-	SP[6] = (space){ .a = A_linecore, .minlen = 4, .maxlen = 4, .fmts = ALL_FORMATS, .nfmt = NFORMATS, .exts = EXT2, .next = 2 };
+	SP[3] = (space){ .a = A_inl, .minlen = 1, .maxlen = 2, .pre = A_pre, .post = A_post, .ctxs = CTX8, .nctx = 8, .fmts = ALL_FORMATS, .nfmt = NFORMATS, .exts = EXT4, .next = 4 };
+	SP[4] = (space){ .a = A_core, .minlen = 3, .maxlen = 3, .pre = A_pre, .post = A_post, .ctxs = CTX2, .nctx = 2, .fmts = FMT5, .nfmt = 5, .exts = EXT2, .next = 2 };
+	SP[5] = (space){ .a = A_lines, .minlen = 3, .maxlen = 3, .fmts = ALL_FORMATS, .nfmt = NFORMATS, .exts = EXT2, .next = 2 };
+	SP[6] = (space){ .a = A_linecore, .minlen = 4, .maxlen = 4, .fmts = FMT5, .nfmt = 3, .exts = EXT2, .next = 1 };
 	SP[7] = (space){ .a = alpha_cat(A_macro, A_linecore), .minlen = 2, .maxlen = 2, .fmts = ALL_FORMATS, .nfmt = NFORMATS, .exts = EXT4, .next = 4 };
 	static const short F1[1] = { FORMAT_HTML };
 	(void)F1;
 	uint64_t cmq = k_seq_count(NCM, 1, 3), cmt = k_seq_count(NCM, 1, 4), cmr2 = k_seq_count(NCM, 1, 2), cmr3 = k_seq_count(NCM, 1, 3);
 	k_level L[] = {
-		{ "q_inline2", space_count(&SP[0]), run0, desc0, "q", "inline+invalid-byte fragments, len<=2 x 4 contexts x 13 formats x {default,compat}" },
-		{ "q_lines2", space_count(&SP[1]), run1, desc1, "q", "line fragments len<=2 x 13 formats x 4 extension sets" },
+		{ "q_inline2", space_count(&SP[0]), run0, desc0, "qt", "inline+invalid-byte fragments, len<=2 x 4 contexts x 13 formats x {default,compat}" },
+		{ "q_lines2", space_count(&SP[1]), run1, desc1, "qt", "line fragments len<=2 x 13 formats x 4 extension sets" },
 		{ "q_macro1", space_count(&SP[2]), run2, desc2, "qt", "macro fragments x 13 formats x 8 extension sets" },
-		{ "q_extsub", n_extsub_q * 6 * NFORMATS, run_extq, desc_extq, "q", "extension subsets with <=2 bits set or <=2 clear (of 17) x 6 pivots x 13 formats" },
+		{ "q_extsub", n_extsub_q * 6 * NFORMATS, run_extq, desc_extq, "qt", "extension subsets with <=2 bits set or <=2 clear (of 17) x 6 pivots x 13 formats" },
 		{ "q_lang", 7 * NFORMATS * 8, run_lang, desc_lang, "qt", "7 languages x 13 formats x 8 extension sets" },
 		{ "q_meta", NMETADOCS * NMKEYS * NMVALS * 3, run_meta, desc_meta, "qt", "metadata entry points: docs x keys x values x 3 API families" },
-		{ "q_critic", cmq * 2, run_cm_whole, desc_cm_whole, "q", "CriticMarkup accept/reject on all marker sequences len<=3" },
-		{ "q_critic_range", cmr2 * 2 * RG * RG, run_cm_range, desc_cm_range, "q", "accept/reject_range, every (start,len) on marker sequences len<=2" },
-		{ "q_readers", k_seq_count(A_xml->n, 1, 2) * NXSKEL * 4, run_xml, desc_xml, "q", "OPML/ITMZ readers: xml fragment sequences len<=2 in 6 skeletons x 4 entry points" },
+		{ "q_critic", cmq * 2, run_cm_whole, desc_cm_whole, "qt", "CriticMarkup accept/reject on all marker sequences len<=3" },
+		{ "q_critic_range", cmr2 * 2 * RG * RG, run_cm_range, desc_cm_range, "qt", "accept/reject_range, every (start,len) on marker sequences len<=2" },
+		{ "q_readers", k_seq_count(A_xml->n, 1, 2) * NXSKEL * 4, run_xml, desc_xml, "qt", "OPML/ITMZ readers: xml fragment sequences len<=2 in 6 skeletons x 4 entry points" },
 		{ "q_zipmut", seed_zip->currentStringLength * 3 + 1, run_zipmut, desc_zipmut, "qt", "ITMZ archive reader: every prefix and every single-byte 00/FF substitution of a valid archive" },
 		{ "q_tofile", (uint64_t)A_macro->n * NFORMATS * 3, run_tofile, desc_tofile, "qt", "convert_to_file: macro docs x 13 formats x 3 API families" },
 		{ "q_engine_reuse", (uint64_t)(A_macro->n + 36) * NFORMATS * NFORMATS, run_reuse, desc_reuse, "qt", "one engine reused: convert(f1), convert(f2), has_metadata, convert(html) for macro and line documents x 13 x 13 formats" },
-		{ "t_inline2", space_count(&SP[3]), run3, desc3, "t", "inline len<=2 x 8 contexts x 13 formats x 8 extension sets" },
-		{ "t_lines3", space_count(&SP[5]), run5, desc5, "t", "line fragments len<=3 x 13 formats x 8 extension sets" },
-		{ "t_extsub", n_extsub_t * 6 * NFORMATS, run_extt, desc_extt, "t", "all 2^17 extension subsets x 6 pivots x 13 formats" },
+		{ "t_inline2", space_count(&SP[3]), run3, desc3, "t", "inline len<=2 x 8 contexts x 13 formats x 4 extension sets" },
+		{ "t_lines3", space_count(&SP[5]), run5, desc5, "t", "line fragments len 3 x 13 formats x {default,compat}" },
+		{ "t_extsub", n_extsub_t * 6 * 7, run_extt, desc_extt, "t", "all 2^17 extension subsets x 6 pivots x 7 formats" },
 		{ "t_critic", cmt * 2, run_cm_whole, desc_cm_whole, "t", "CriticMarkup accept/reject on all marker sequences len<=4" },
 		{ "t_critic_range", cmr3 * 2 * RG * RG, run_cm_range, desc_cm_range, "t", "accept/reject_range, every (start,len) on marker sequences len<=3" },
 		{ "t_readers", k_seq_count(A_xml->n, 1, 3) * NXSKEL * 4, run_xml, desc_xml, "t", "OPML/ITMZ readers: xml sequences len<=3 in 6 skeletons x 4 entry points" },
 		{ "t_macro2", space_count(&SP[7]), run7, desc7, "t", "ordered pairs over macro+line-core fragments x 13 formats x 4 extension sets" },
-		{ "t_inline3", space_count(&SP[4]), run4, desc4, "t", "inline core len 3 x 4 contexts x 13 formats x {default,compat}" },
-		{ "t_lines4", space_count(&SP[6]), run6, desc6, "t", "one-per-kind lines len 4 x 13 formats x {default,compat}" },
+		{ "t_inline3", space_count(&SP[4]), run4, desc4, "t", "inline core len 3 x {bare, footnote} contexts x 5 formats x {default,compat}" },
+		{ "t_lines4", space_count(&SP[6]), run6, desc6, "t", "one-per-kind lines len 4 x {html,latex,fodt} x default" },
 	};
 	(void)cmr3; (void)A_cm;
 	return k_main(argc, argv, L, sizeof L / sizeof L[0]);
